@@ -168,3 +168,34 @@ func ZZ_C09_unloaded() {
 	vAssert("unloaded-msg-nil", bf.MsgFilterLoad() == nil)
 	vReach("end")
 }
+
+// ZZ_C09_reload: after Reload (also after Unload) the filter behaves exactly like a filter
+// freshly loaded with the new message - sizes of the old and the new filter are independent.
+func ZZ_C09_reload() {
+	old := vBuf("oldfilter", 1, 36000)
+	bf := LoadFilter(&wire.MsgFilterLoad{Filter: old, HashFuncs: uint32(vCase("oldk", 0, 2)), Tweak: vU32("oldtweak")})
+	if vCase("unloadfirst", 0, 1) == 1 {
+		bf.Unload()
+		vAssert("unloaded", !bf.IsLoaded())
+	}
+	buf := vBuf("filter", 1, 36000)
+	k := uint32(vCase("hashfuncs", 0, vParam("maxk", 2)))
+	tweak := vU32("tweak")
+	bf.Reload(&wire.MsgFilterLoad{Filter: buf, HashFuncs: k, Tweak: tweak})
+	vAssert("loaded", bf.IsLoaded())
+	j := vInt("probe")
+	vAssume(j >= 0 && j < len(buf))
+	before := buf[j]
+	item := vBytes("item", zzItemLen())
+	bf.Add(item)
+	vAssert("present-after-reload-add", bf.Matches(item))
+	want := before
+	for i := uint32(0); i < k; i++ {
+		bit := zzRefBit(i, tweak, item, len(buf))
+		if int(bit>>3) == j {
+			want |= 1 << (bit & 7)
+		}
+	}
+	vAssert("bip37-bit-array-after-reload", buf[j] == want)
+	vReach("end")
+}
